@@ -403,4 +403,8 @@ func TestVF_C08(t *testing.T) {
 	}
 	vfEnumerate(t, "C08", "enum", total*variants, get, func(x c08Scn) vfCase { return runC08(t, x, vfEnv.Replay != "") })
 	vfExplore(t, "C08", "sampled", vfN(1600, 40000), genC08, func(x c08Scn) vfCase { return runC08(t, x, vfEnv.Replay != "") })
+	// a foreign peer shuts down and acknowledges the endpoint's remaining data with the
+	// cumulative TSN of its SHUTDOWN chunks (scenario generator of C15's shutdown-acks): the
+	// endpoint must answer SHUTDOWN-ACK once everything is acknowledged and close on SHUTDOWN-COMPLETE
+	vfExplore(t, "C08", "foreign-shutdown", vfN(800, 20000), genC15Shut, func(x c15Shut) vfCase { return runC15ShutX(t, x, vfEnv.Replay != "", true) })
 }
